@@ -47,6 +47,10 @@ pub enum Recipe {
     C01 { n: usize },
     /// n_rand random/pct schedules + n_victims victim strategies (usize::MAX = full sweep)
     C02 { n_rand: usize, n_victims: usize },
+    /// n IR-on runs over build-directory histories, with read-back and eviction
+    C14 { n: usize },
+    /// n_job plans with a job failure injected, n_bytes plans with stored-byte faults on the source
+    C15 { n_job: usize, n_bytes: usize },
 }
 
 pub fn option_sets() -> Vec<Opts> {
@@ -79,10 +83,33 @@ fn random_mask(rng: &mut Prng) -> u64 {
     }
 }
 
+/// The kind of a job: its Debug text without the instance payload, e.g. `Be(GlyfFragment`
+fn job_kind(job: &str) -> &str {
+    match job.find('(') {
+        Some(i) => match job[i + 1..].find('(') {
+            Some(j) => &job[..i + 1 + j],
+            None => job,
+        },
+        None => job,
+    }
+}
+
+/// Pick a job to single out: first a kind, then an instance of it, so that one-of-a-kind
+/// jobs (GlyphOrder, KerningLocations, Features, ...) are as likely as the whole glyph crowd.
+pub fn pick_victim(rng: &mut Prng, jobs: &[String]) -> Option<String> {
+    if jobs.is_empty() {
+        return None;
+    }
+    let mut kinds: Vec<&str> = jobs.iter().map(|j| job_kind(j)).collect();
+    kinds.sort();
+    kinds.dedup();
+    let kind = *rng.pick(&kinds);
+    let of_kind: Vec<&String> = jobs.iter().filter(|j| job_kind(j) == kind).collect();
+    Some((*rng.pick(&of_kind)).clone())
+}
+
 pub fn random_strategy(rng: &mut Prng, reference: &ExecRecord) -> Strategy {
-    let victim = |rng: &mut Prng| {
-        if reference.jobs.is_empty() { None } else { Some(rng.pick(&reference.jobs).clone()) }
-    };
+    let victim = |rng: &mut Prng| pick_victim(rng, &reference.jobs);
     let seed = rng.next();
     let base = Some(if rng.chance(1, 3) { "seq" } else { "rand" }.to_string());
     match rng.below(12) {
@@ -141,8 +168,6 @@ pub fn groups(property: &str, tier: &str, seed: u64) -> Vec<Group> {
                 let sets: Vec<usize> = if quick { vec![0, 1 + rng.below(5)] } else { vec![0, 1, 2, 5] };
                 for k in sets {
                     let mut reference = Plan::reference("C02", src, opts[k].clone());
-                    // yields at every Context access in the reference run too, so that its log
-                    // has the same shape as the variations'
                     reference.hash_seed = rng.next();
                     let gseed = rng.next();
                     out.push(Group {
@@ -151,7 +176,7 @@ pub fn groups(property: &str, tier: &str, seed: u64) -> Vec<Group> {
                         seed: gseed,
                         reference,
                         recipe: if quick {
-                            Recipe::C02 { n_rand: 6, n_victims: 10 }
+                            Recipe::C02 { n_rand: 4, n_victims: 9 }
                         } else {
                             Recipe::C02 { n_rand: 60, n_victims: usize::MAX }
                         },
@@ -159,9 +184,117 @@ pub fn groups(property: &str, tier: &str, seed: u64) -> Vec<Group> {
                 }
             }
         }
+        "C14" => {
+            for src in &corpus {
+                let k = if rng.chance(1, 2) { 0 } else { 1 + rng.below(6) };
+                let mut o = opts[k].clone();
+                // the reference is the same build without IR
+                o.emit_ir = false;
+                o.emit_debug = false;
+                o.output_in_ir_dir = false;
+                let mut reference = Plan::reference("C14", src, o);
+                reference.hash_seed = rng.next();
+                let gseed = rng.next();
+                out.push(Group {
+                    property: "C14".into(),
+                    index: out.len(),
+                    seed: gseed,
+                    reference,
+                    recipe: Recipe::C14 { n: if quick { 9 } else { 60 } },
+                });
+            }
+        }
+        "C15" => {
+            for src in &corpus {
+                let k = if rng.chance(2, 3) { 0 } else { 1 + rng.below(5) };
+                let reference = Plan::reference("C15", src, opts[k].clone());
+                let gseed = rng.next();
+                out.push(Group {
+                    property: "C15".into(),
+                    index: out.len(),
+                    seed: gseed,
+                    reference,
+                    recipe: if quick { Recipe::C15 { n_job: 5, n_bytes: 9 } } else { Recipe::C15 { n_job: 40, n_bytes: 120 } },
+                });
+            }
+        }
         _ => {}
     }
+    // generated sources: richer task graphs, more map entries, naming and kerning-location stress
+    let n_gen = match (property, quick) {
+        ("C01", true) | ("C02", true) => 6,
+        ("C14", true) => 12,
+        ("C15", true) => 4,
+        ("C14", false) => 120,
+        (_, false) => 60,
+        _ => 0,
+    };
+    let profiles = crate::generate::profiles();
+    for i in 0..n_gen {
+        let profile = match property {
+            "C14" => ["names", "kern", "names", "mixed", "kern", "composites"][i % 6],
+            _ => profiles[i % profiles.len()],
+        };
+        let k = if rng.chance(1, 2) { 0 } else { 1 + rng.below(6) };
+        let mut o = opts[k].clone();
+        if property == "C14" || property == "C15" {
+            o.emit_ir = false;
+            o.emit_debug = false;
+            o.output_in_ir_dir = false;
+        }
+        let mut reference = Plan::reference(property, &format!("gen:{profile}"), o);
+        reference.gen_seed = Some(rng.next() >> 16);
+        reference.hash_seed = rng.next();
+        let gseed = rng.next();
+        let big = profile == "big";
+        let recipe = match (property, quick) {
+            ("C01", true) => Recipe::C01 { n: if big { 4 } else { 10 } },
+            ("C01", false) => Recipe::C01 { n: if big { 12 } else { 60 } },
+            ("C02", true) => Recipe::C02 { n_rand: if big { 2 } else { 5 }, n_victims: if big { 4 } else { 12 } },
+            ("C02", false) => Recipe::C02 { n_rand: if big { 6 } else { 40 }, n_victims: if big { 40 } else { usize::MAX } },
+            ("C14", true) => Recipe::C14 { n: if big { 3 } else { 8 } },
+            ("C14", false) => Recipe::C14 { n: if big { 8 } else { 40 } },
+            ("C15", true) => Recipe::C15 { n_job: 6, n_bytes: 0 },
+            ("C15", false) => Recipe::C15 { n_job: 30, n_bytes: 0 },
+            _ => continue,
+        };
+        out.push(Group { property: property.into(), index: out.len(), seed: gseed, reference, recipe });
+    }
     out
+}
+
+fn byte_fault(rng: &mut Prng, files: &[String]) -> Option<Fault> {
+    if files.is_empty() {
+        return None;
+    }
+    let kind = *rng.pick(&[
+        "src-truncate", "src-truncate", "src-bitrot", "src-bitrot", "src-delete", "src-misdirect", "src-empty",
+        "src-dup-lines", "src-drop-lines", "src-drop-lines", "src-number", "src-number", "src-number",
+        "src-cycle", "src-cycle", "src-cycle", "src-nest", "src-nest", "src-soup",
+    ]);
+    let prefer: Vec<&String> = match kind {
+        "src-cycle" => files
+            .iter()
+            .filter(|f| f.ends_with(".glyphs") || (f.ends_with(".glif") && rng.chance(1, 1)))
+            .collect(),
+        "src-nest" | "src-soup" => files
+            .iter()
+            .filter(|f| f.ends_with(".glyphs") || f.ends_with(".plist") || f.ends_with(".fea") || f.ends_with(".designspace") || f.ends_with(".glif"))
+            .collect(),
+        _ => files.iter().collect(),
+    };
+    let pool: Vec<&String> = if prefer.is_empty() { files.iter().collect() } else { prefer };
+    let mut target = (*rng.pick(&pool)).clone();
+    if kind == "src-delete" && rng.chance(1, 3) {
+        // lose a whole directory instead of one file
+        if let Some(parent) = std::path::Path::new(&target).parent() {
+            let p = parent.to_string_lossy().to_string();
+            if !p.is_empty() {
+                target = p;
+            }
+        }
+    }
+    Some(Fault { kind: kind.to_string(), target: Some(target), nth: 0, arg: (rng.next() >> 1) as i64 })
 }
 
 /// The variations of a group, known only once its reference run has been seen
@@ -215,7 +348,7 @@ pub fn variations(group: &Group, reference: &ExecRecord) -> Vec<Plan> {
                     p.strategy = Strategy {
                         name: rng.pick(&kinds).to_string(),
                         seed: rng.next(),
-                        victim: Some(rng.pick(&reference.jobs).clone()),
+                        victim: pick_victim(&mut rng, &reference.jobs),
                         depth: 0,
                         horizon: 0,
                         base: Some(if rng.chance(1, 2) { "seq" } else { "rand" }.into()),
@@ -223,6 +356,86 @@ pub fn variations(group: &Group, reference: &ExecRecord) -> Vec<Plan> {
                     p.yield_mask = random_mask(&mut rng);
                     out.push(p);
                 }
+            }
+        }
+        Recipe::C14 { n } => {
+            let corpus = corpus();
+            for i in 0..*n {
+                let mut p = group.reference.clone();
+                p.options.emit_ir = true;
+                p.options.output_in_ir_dir = rng.chance(1, 2);
+                p.options.emit_debug = rng.chance(1, 4);
+                p.readback = true;
+                p.hash_seed = rng.next();
+                p.workers = *rng.pick(WORKERS);
+                p.strategy = random_strategy(&mut rng, reference);
+                p.yield_mask = random_mask(&mut rng);
+                p.history = match (i, rng.below(6)) {
+                    (0, _) => History::Clean,
+                    (_, 0) => History::Clean,
+                    (_, 1) | (_, 2) => History::SameSource,
+                    (_, 3) => History::OtherSource(rng.pick(&corpus).clone()),
+                    _ => History::Crashed(rng.below(reference.steps.max(2))),
+                };
+                // eviction differential on a seeded subset of the items that are only ever get()
+                if i % 3 != 0 && !reference.evictable.is_empty() {
+                    let all = rng.chance(1, 4);
+                    for item in &reference.evictable {
+                        if all || rng.chance(1, 4) {
+                            p.evict.push(item.clone());
+                        }
+                    }
+                    if p.evict.is_empty() {
+                        p.evict.push(rng.pick(&reference.evictable).clone());
+                    }
+                }
+                out.push(p);
+            }
+        }
+        Recipe::C15 { n_job, n_bytes } => {
+            if !reference.jobs.is_empty() {
+                for _ in 0..*n_job {
+                    let mut p = group.reference.clone();
+                    p.hash_seed = rng.next();
+                    p.workers = *rng.pick(WORKERS);
+                    p.strategy = random_strategy(&mut rng, reference);
+                    p.yield_mask = random_mask(&mut rng);
+                    let kind = if rng.chance(1, 2) { "job-panic" } else { "job-err" };
+                    let (target, nth) = if rng.chance(2, 3) {
+                        (pick_victim(&mut rng, &reference.jobs), 0)
+                    } else {
+                        (None, rng.below(reference.jobs.len()))
+                    };
+                    p.faults.push(Fault { kind: kind.into(), target, nth, arg: 0 });
+                    if rng.chance(1, 4) {
+                        // a second failure somewhere else
+                        p.faults.push(Fault {
+                            kind: if rng.chance(1, 2) { "job-panic" } else { "job-err" }.into(),
+                            target: pick_victim(&mut rng, &reference.jobs),
+                            nth: 0,
+                            arg: 0,
+                        });
+                    }
+                    out.push(p);
+                }
+            }
+            let files = if *n_bytes > 0 { crate::tree::closure(&group.reference.source) } else { vec![] };
+            for _ in 0..*n_bytes {
+                let mut p = group.reference.clone();
+                p.hash_seed = rng.next();
+                p.workers = *rng.pick(WORKERS);
+                p.strategy = random_strategy(&mut rng, reference);
+                p.yield_mask = random_mask(&mut rng);
+                let n = 1 + rng.below(3);
+                for _ in 0..n {
+                    if let Some(f) = byte_fault(&mut rng, &files) {
+                        p.faults.push(f);
+                    }
+                }
+                if p.faults.is_empty() {
+                    continue;
+                }
+                out.push(p);
             }
         }
     }
